@@ -9,6 +9,24 @@ from ..facts import Graph, events, last_field, expr_eids, expr_paths, memorder, 
 from ..inline import Super, TooBig
 from .atomics import prop_of_file
 
+F_GLOBAL = []
+
+
+def _helper_shift(F, callee):
+    """0 if the count helper masks (x & m), n if it shifts (x >> n), None if unknown"""
+    cands = [g for g in F.funcs if g['name'] == callee.get('name') and g.get('blocks') and (not callee.get('qname') or g['qname'] == callee.get('qname'))]
+    if not cands: cands = [g for g in F.funcs if g['name'] == callee.get('name') and g.get('blocks')]
+    res = set()
+    for g in cands:
+        for _, _, e in events(g):
+            if e['k'] == 'ret' and isinstance(e.get('v'), dict):
+                v = e['v']
+                if v.get('op') == 'bin' and v.get('o') == '>>' and _lit(v.get('r')) is not None: res.add(_lit(v['r']))
+                elif v.get('op') == 'bin' and v.get('o') == '&': res.add(0)
+    return res.pop() if len(res) == 1 else None
+
+
+COUNT_HELPERS = {'ref_count', 'use_count', 'op_count'}
 PROPS = ['C01', 'C04', 'C06', 'C08', 'C09', 'C10', 'C13', 'C14', 'C15', 'C16', 'C19']
 
 
@@ -58,7 +76,17 @@ def rmw_tests(f, G):
                     k = _lit(b)
                     if k is None: continue
                     eid = None
-                    if a.get('op') == 'call' and 'eid' in a: eid = a['eid']
+                    if a.get('op') == 'call' and 'eid' in a:
+                        eid = a['eid']
+                        # count-extracting helpers are transparent: ref_count(old) == 1
+                        cn2 = eid2node.get(eid)
+                        if cn2 is not None and G.ev[cn2]['callee'].get('name') in COUNT_HELPERS and G.ev[cn2].get('args'):
+                            ap = G.ev[cn2]['args'][0]
+                            if ap.get('op') == 'path' and ap.get('p') in var2eid: eid = var2eid[ap['p']]
+                            elif ap.get('op') == 'call' and 'eid' in ap: eid = ap['eid']
+                            sh = _helper_shift(F_GLOBAL[0], G.ev[cn2]['callee']) if F_GLOBAL else None
+                            if sh is None: eid = None          # helper semantics unknown: not decided
+                            elif sh: k = k << sh               # helper returns old >> sh : compare in the word's units
                     elif a.get('op') == 'path' and a.get('p') in var2eid: eid = var2eid[a['p']]
                     if eid is None or eid not in eid2node: continue
                     cn = eid2node[eid]; ce = G.ev[cn]
@@ -77,6 +105,7 @@ def _mk(prop):
     def r(run, F, prop=prop):
         gcache = {}
         n = 0
+        F_GLOBAL[:] = [F]
         for f in F.funcs:
             if prop_of_file(f['file']) != prop or not f.get('blocks'): continue
             has = any(e['k'] == 'call' and e['callee'].get('name') in ('fetch_sub', 'fetch_add') for _, _, e in events(f))
